@@ -116,7 +116,8 @@ def pp(e, first=True):
         return sa + " " + SYM[k] + " " + sb
     if k in ('lt', 'le', 'ge', 'gt', 'imp'):
         a, b = e[1], e[2]
-        sa = pp(a) if LEVEL[a[0]] >= 2 else paren(a)
+        # `p & q -> r` is read as (p & q) -> r: the operators of this level are collected left to right
+        sa = pp(a) if (LEVEL[a[0]] >= 2 or (k == 'imp' and a[0] in ('and', 'or', 'xor'))) else paren(a)
         sb = pp(b) if LEVEL[b[0]] >= 2 else paren(b)
         return sa + " " + SYM[k] + " " + sb
     ops = e[1]
